@@ -11,6 +11,8 @@ Record ecase := {
   ec_allow_fail : bool; ec_allow_crash : bool; ec_max_crashes : nat;
   ec_allow_cancel : bool; ec_max_cancels : nat;   (* the scheduler may cancel a request's context, at most so often *)
   ec_steps : list (action * nat);    (* each choice with the number of choices the harness had *)
+  ec_final_choices : nat;            (* the number of choices it had when it stopped (0: nothing left to do; requests
+                                        may remain, e.g. waiting for a lock nobody will release) *)
   ec_disk : list obs_entry;          (* what is on disk at the end *)
   ec_resps : list (tid * response);
   ec_events : list (tid * kind * option nat * option nat)   (* published: tid, kind, txid, reverted *)
@@ -67,7 +69,7 @@ Definition count_choices (c : ecase) (crashes cancels : nat) (s : state) : nat :
 
 Fixpoint replay (c : ecase) (crashes cancels : nat) (s : state) (steps : list (action * nat)) : option state :=
   match steps with
-  | [] => Some s
+  | [] => if Nat.eqb (count_choices c crashes cancels s) (ec_final_choices c) then Some s else None
   | (a, n) :: r =>
       if negb (Nat.eqb (count_choices c crashes cancels s) n) then None
       else match step s a with
@@ -99,7 +101,7 @@ Definition check_case (c : ecase) : bool :=
 (* where a replay stops: index of the first step the model refuses (or whose choice count differs) *)
 Fixpoint first_refused (c : ecase) (crashes cancels : nat) (s : state) (steps : list (action * nat)) (i : nat) : nat :=
   match steps with
-  | [] => 999
+  | [] => if Nat.eqb (count_choices c crashes cancels s) (ec_final_choices c) then 999 else 998
   | (a, n) :: r =>
       if negb (Nat.eqb (count_choices c crashes cancels s) n) then (500 + i)%nat
       else match step s a with
